@@ -380,38 +380,69 @@ def deserialize (W : World) (t : Table) : Row → Except Err Sym
             -- reflection.py:388-395: own attributes if any, else those of the origin
             .ok { types := o.types, node := nd, decl := dc, via := vk, attrs := if rs.isEmpty then o.attrs else obsList rs }
 
-/-! ### `_order_keys` / `_order_keys_recursive` (db.py:182-214) -/
+/-! ### `_order_keys` / `_order_keys_recursive` (db.py:182-238, after fix 95feeba) -/
 
 /-- Python truthiness of `for_module_path: str | None` -/
 def falsy : Option Str → Bool
   | none => true
   | some s => s.isEmpty
 
+/-- db.py:230-235: before the class key `k` is listed, the attributes of the table entry of `k` are walked (`sub`), unless `k` is
+    no table key or is being expanded already (`resolving`). -/
+def entryFirst (look : Str → Option Forest) (sub : Forest → List Str → List Str → List Str) (k : Str) (o1 res : List Str) : List Str :=
+  match look k with
+  | some ea => if res.contains k then o1 else sub ea o1 (res ++ [k])
+  | none => o1
+
 mutual
-/-- db.py:200-214. The guard of line 213 parses as `(not fm) or (fm == module_path and fullyname not in orders)`. -/
-def orderNode (fm : Option Str) : Attr → List Str → List Str
-  | .mk k cs, orders =>
-    let orders := orderList fm cs orders
-    if falsy fm || (fm == some (modOf k) && !orders.contains k) then orders ++ [k] else orders
-def orderList (fm : Option Str) : List Attr → List Str → List Str
-  | [], orders => orders
-  | a :: rest, orders => orderList fm rest (orderNode fm a orders)
+/-- `_order_keys_recursive` (db.py:200-238) on one reflection. `look k` = `self.__items[k].attrs` if `k in self.__items`;
+    `sub` walks the attributes of such a table entry (the same function one nesting level down, see `orderFuel`);
+    `res` = `resolving`, passed down extended and restored by the `pop()` on return.
+    The guard of line 229 parses as `(not fm) or (fm == module_path and key not in orders)`. -/
+def orderNode (look : Str → Option Forest) (sub : Forest → List Str → List Str → List Str) (fm : Option Str) :
+    Attr → List Str → List Str → List Str
+  | .mk k cs, orders, res =>
+    -- lines 225-226
+    let o1 := orderList look sub fm cs orders res
+    -- line 229
+    if falsy fm || (fm == some (modOf k) && !o1.contains k) then
+      -- lines 230-235: the keys the class entry itself refers to go first
+      let o2 := entryFirst look sub k o1 res
+      -- lines 237-238
+      if falsy fm || !o2.contains k then o2 ++ [k] else o2
+    else o1
+def orderList (look : Str → Option Forest) (sub : Forest → List Str → List Str → List Str) (fm : Option Str) :
+    List Attr → List Str → List Str → List Str
+  | [], orders, _ => orders
+  | a :: rest, orders, res => orderList look sub fm rest (orderNode look sub fm a orders res) res
 end
+
+/-- the walk over a list of reflections with `fuel` nesting levels of entry expansion left. Every expansion adds a new
+    table key to `resolving`, so `number of table keys + 1` levels are never used up (`orderKeys` starts with that). -/
+def orderFuel (look : Str → Option Forest) (fm : Option Str) : Nat → Forest → List Str → List Str → List Str
+  | 0, _, orders, _ => orders
+  | n + 1, f, orders, res => orderList look (orderFuel look fm n) fm f orders res
 
 /-- a table entry as `_order_keys_recursive` sees it -/
 def Sym.asAttr (W : World) (s : Sym) : Attr := .mk (s.typesKey W) s.attrs
 
+/-- `self.__items[key].attrs` -/
+def Table.entryAttrs (t : Table) (k : Str) : Option Forest :=
+  match dictGet? t.items k with
+  | some s => some s.attrs
+  | none => none
+
 /-- db.py:190-198 -/
-def orderKeysLoop (W : World) (fm : Option Str) : List (Str × Sym) → List Str → List Str
+def orderKeysLoop (W : World) (t : Table) (fm : Option Str) : List (Str × Sym) → List Str → List Str
   | [], orders => orders
   | (k, s) :: rest, orders =>
     let m := modOf k
     if fm == none || fm == some m then
-      let orders := orderNode (some m) (s.asAttr W) orders
-      orderKeysLoop W fm rest (if orders.contains k then orders else orders ++ [k])
-    else orderKeysLoop W fm rest orders
+      let orders := orderFuel t.entryAttrs (some m) (t.items.length + 1) [s.asAttr W] orders []
+      orderKeysLoop W t fm rest (if orders.contains k then orders else orders ++ [k])
+    else orderKeysLoop W t fm rest orders
 
-def orderKeys (W : World) (t : Table) (fm : Option Str) : List Str := orderKeysLoop W fm t.items []
+def orderKeys (W : World) (t : Table) (fm : Option Str) : List Str := orderKeysLoop W t fm t.items []
 
 /-- db.py:167: `{key: serializer.serialize(self[key]) for key in self._order_keys(for_module_path)}` -/
 def toJsonRows (W : World) (t : Table) : List Str → List (Str × Row) → Except Err (List (Str × Row))
